@@ -198,16 +198,29 @@ func doDump(p *core.Prog, what, fnSpec, match string) {
 			}
 		}
 	case "params":
-		// reference parameter names by position (frozen into internal/core/refparams.json)
-		out := map[string][]string{}
+		// reference program (frozen into internal/core/refparams.json): for every
+		// production function its parameter names by position and the module
+		// functions it calls. Regenerate only when the reference tree changes.
+		type ent struct {
+			Params  []string `json:"params"`
+			Callees []string `json:"callees"`
+		}
+		out := map[string]ent{}
 		for _, f := range p.Prod {
-			var names []string
+			var e ent
 			for _, q := range f.Params {
-				names = append(names, q.Name())
+				e.Params = append(e.Params, q.Name())
 			}
-			if len(names) > 0 {
-				out[f.String()] = names
+			seen := map[string]bool{}
+			for _, ci := range core.CallSites(f) {
+				n := p.CalleeName(ci.Common())
+				if !seen[n] && !strings.HasPrefix(n, "dyn:") {
+					seen[n] = true
+					e.Callees = append(e.Callees, n)
+				}
 			}
+			sort.Strings(e.Callees)
+			out[f.String()] = e
 		}
 		b, _ := json.MarshalIndent(out, "", " ")
 		fmt.Println(string(b))
